@@ -42,3 +42,24 @@ Qed.
 
 Lemma head_is_app p a rest : a <> [] -> head_is p (a ++ rest) = head_is p a.
 Proof. destruct a; [congruence|reflexivity]. Qed.
+
+(* the text of separators followed by a non-digit does not start with a digit *)
+Lemma seps_head_not_digit s c rest : seps_ok s = true -> is_digit c = false ->
+  head_is is_digit (seps_text s ++ c :: rest) = false.
+Proof.
+  destruct s as [pairs wsf]. intros Hok Hc. unfold seps_ok in Hok. cbn [fst snd] in Hok.
+  apply andb_true_iff in Hok. destruct Hok as [Hps Hwf].
+  unfold seps_text. cbn [fst snd].
+  destruct pairs as [|[ws txt] ps].
+  - cbn [flat_map app]. destruct wsf as [|w wsf']; [exact Hc|].
+    cbn [forallb] in Hwf. apply andb_true_iff in Hwf. destruct Hwf as [Hw _].
+    cbn [app head_is]. destruct (is_digit w) eqn:E; [|reflexivity].
+    rewrite (digit_not_space _ E) in Hw. discriminate.
+  - cbn [forallb fst snd] in Hps. apply andb_true_iff in Hps. destruct Hps as [Hp _].
+    apply andb_true_iff in Hp. destruct Hp as [Hws _].
+    cbn [flat_map fst snd]. rewrite <- !app_assoc.
+    destruct ws as [|w ws']; [reflexivity|].
+    cbn [forallb] in Hws. apply andb_true_iff in Hws. destruct Hws as [Hw _].
+    cbn [app head_is]. destruct (is_digit w) eqn:E; [|reflexivity].
+    rewrite (digit_not_space _ E) in Hw. discriminate.
+Qed.
